@@ -24,6 +24,11 @@ pub struct NetPlan {
     pub udp_loss: u32,
     pub udp_dup: u32,
     pub udp_reorder: u32,
+    /// tuning knob (guarded hook `penguin_mux::verif_hooks::set_window`): receive window and
+    /// acknowledgement threshold of every multiplexor built in this run; None = penguin's default
+    /// of 512 / 256 frames
+    #[serde(default)]
+    pub window: Option<[u32; 2]>,
 }
 impl NetPlan {
     pub fn cfg(&self) -> penguin_simnet::NetCfg {
@@ -48,6 +53,7 @@ pub fn run_world<F: Future>(seed: u64, net: &NetPlan, f: impl FnOnce() -> F) -> 
     });
     penguin_simnet::reset(seed, net.cfg());
     penguin_mux::verif_hooks::set_seed(seed ^ 0xf10e_1d5);
+    penguin_mux::verif_hooks::set_window(net.window.map(|w| (w[0].max(1), w[1].max(1))));
     let rt = tokio::runtime::Builder::new_current_thread()
         .enable_all()
         .start_paused(true)
